@@ -50,6 +50,7 @@ pub struct Op {
     pub x: u64,   // file offset (.._at), first slice length (write_vectored)
     pub c: usize, // per-call transfer limit of the file (0 = plain File)
     pub v: u8,    // ramp phase of the data
+    pub sl: Vec<usize>, // write_vectored: lengths of the IoSlices offered (1..8 slices, empty ones included); sum = n
 }
 
 #[derive(Clone, Debug)]
@@ -312,8 +313,13 @@ fn exec_writer<'a, S: BitmapSlice>(w: &mut Writer<'a, S>, other: Option<&Writer<
             fold(q, |_| None)
         }
         "write_vectored" => {
-            let n1 = (op.x as usize).min(op.n);
-            let bufs = [IoSlice::new(&data[..n1]), IoSlice::new(&[]), IoSlice::new(&data[n1..])];
+            let sl = data_slices(op).unwrap_or_default();
+            let mut bufs: Vec<IoSlice> = Vec::new();
+            let mut at = 0usize;
+            for l in sl {
+                bufs.push(IoSlice::new(&data[at..at + l]));
+                at += l;
+            }
             fold(catch_unwind(AssertUnwindSafe(|| w.write_vectored(&bufs))), |k| Some(k as u64))
         }
         "write_from" => {
@@ -361,6 +367,7 @@ pub fn data_slices(op: &Op) -> Option<Vec<usize>> {
     let n1 = (op.x as usize).min(op.n);
     match op.op.as_str() {
         "write" | "write_all" | "write_obj" | "async_write" | "async_write_all" => Some(vec![op.n]),
+        "write_vectored" if !op.sl.is_empty() => Some(op.sl.clone()),
         "write_vectored" => Some(vec![n1, 0, op.n - n1]),
         "async_write2" => Some(vec![n1, op.n - n1]),
         "async_write3" => {
@@ -801,7 +808,11 @@ fn concretise(m: &Value, scale: usize, fuse_reader: bool, id: usize) -> (Scn, Ve
                 "write_all" => ((if j % 2 == 0 { "write_obj" } else { "write_all" }).to_string(), n * scale),
                 _ => (name.to_string(), n * scale),
             };
-            Op { o: map_obj(o["o"].as_u64().unwrap() as usize), op: name, n, x: x * s, c: c * scale, v: ((31 * (j + 1) + 7) % 251) as u8 }
+            // the model's vectored write offers (n1, empty, n2); every other one is executed with a fourth
+            // position (n1, empty, empty, n2): same bytes, same obligations
+            let n1 = ((x * s) as usize).min(n);
+            let sl = if name == "write_vectored" && j % 2 == 0 { vec![n1, 0, 0, n - n1] } else { Vec::new() };
+            Op { o: map_obj(o["o"].as_u64().unwrap() as usize), op: name, n, x: x * s, c: c * scale, v: ((31 * (j + 1) + 7) % 251) as u8, sl }
         })
         .collect();
     (
@@ -951,7 +962,31 @@ impl OpSource for RandomOps {
             }
             _ => {}
         }
-        Some(Op { o: l.id, op: op.to_string(), n, x, c, v })
+        let mut sl = Vec::new();
+        if op == "write_vectored" {
+            // 1..8 slices of arbitrary lengths (0 included) adding up to n; one time in four the vector is built so
+            // that its first three slices fit exactly/almost and only the later ones exceed the space
+            let k = rng.range(1, 8) as usize;
+            if k >= 4 && rng.chance(1, 4) {
+                let a = l.avail;
+                let p1 = rng.below(a as u64 + 1) as usize;
+                let p2 = rng.below((a - p1) as u64 + 1) as usize;
+                let p3 = if rng.chance(1, 2) { a - p1 - p2 } else { rng.below((a - p1 - p2) as u64 + 1) as usize };
+                sl = vec![p1, p2, p3];
+                for _ in 3..k {
+                    sl.push(*rng.pick(&[0usize, 1, 1, 7, 16, 4096]));
+                }
+            } else {
+                let mut rest = n;
+                for i in 0..k {
+                    let part = if i + 1 == k { rest } else if rng.chance(1, 4) { 0 } else { rng.below(rest as u64 + 1) as usize };
+                    sl.push(part);
+                    rest -= part;
+                }
+            }
+            n = sl.iter().sum();
+        }
+        Some(Op { o: l.id, op: op.to_string(), n, x, c, v, sl })
     }
 }
 
